@@ -140,8 +140,9 @@ impl ConditionallySelectable for Fq {
         for i in 0..4 {
             out[i] = u64::conditional_select(&a_limbs[i], &b_limbs[i], choice);
         }
+        // The selected limbs are already in Montgomery form: `new` would convert them again.
         let bigint = BigInt::new(out);
-        Self(ArkworksFq::new(bigint))
+        Self(ArkworksFq::new_unchecked(bigint))
     }
 }
 
